@@ -31,6 +31,9 @@ CLAIMED = {
  "C09": ("exploration", "model-based PBT: generated iterator call sequences compared call by call with a model iterator",
          "Generated snapshot shapes (single/many segments, tombstones first/last/consecutive, lower level present/exhausted/only source; collection, child and store snapshots), generated bounds (nil, non-nil empty, equal, inverted, sharing prefixes, neighbours of keys) and call sequences of Next/SeekTo/Current incl. backward seeks and seeks after exhaustion; after every call the return value, key and value must equal a model iterator's. " + NOTE_SCHED,
          "5.C09"),
+ "C13": ("exploration", "model-based PBT against an application lower level implementing the documented update protocol, with generated update failures",
+         "Collection over an application-supplied lower level (immutable ordered-map snapshots, children supported) that applies every `higher` snapshot by the documented protocol; generated histories of Set/Del/Merge batches, merger cycles, parked / failing / retried LowerLevelUpdate calls, CachePersisted on/off, plus free-running cases with MaxDirtyOps / MaxDirtyKeyValBytes back-pressure; the lower level must equal the reference prefix after every completed update, a failed update must be followed by an identical offer, successful updates must leave non-decreasing batch-prefix states, and after draining the lower level must equal the full reference. " + NOTE_SCHED,
+         "5.C13"),
  "C14": ("exploration", "differential + model-based PBT: the same persisted directory read under generated key-index settings",
          "Generated key sets (empty key, shared prefixes, variable lengths) persisted as 1-3 segments and optionally fully compacted; a copy of the directory is opened with the index off (defaults) and with generated quota / minimum-key-bytes settings spanning hop = 1..n and truncated indexes; every present key, neighbours, below-first / above-last and generated probes are read by Get, and ranges [p,nil), [nil,p), [p,q) are iterated; all must equal the reference under every setting.",
          "5.C14"),
